@@ -199,7 +199,7 @@ func c18Enumeration(c *Ctx, ge *GuardEngine) {
 		where := c.P.Pos(fn.Pos())
 		ok1, _ := has(cs, "types.computeMultiproof", "{types.V2TransactionsMultiproof}")
 		c.Check(ok1, "proof-count", "encoder:proof-of-original", where, ifElse(ok1, "the multiproof is computed from the receiver, which still carries its proofs", "computeMultiproof is not applied to the original (proof-carrying) transactions"))
-		ok2, _ := has(cs, "(*types.V2Transaction).DeepCopy", "{types.V2TransactionsMultiproof}[*]")
+		ok2, _ := has(cs, "(types.V2Transaction).DeepCopy", "{types.V2TransactionsMultiproof}[*]")
 		ok3, f3 := has(cs, "types.forEachElementLeaf", "…")
 		stripsCopy := ok3 && !strings.Contains(f3.Args[0], "{types.V2TransactionsMultiproof}")
 		c.Check(ok2 && stripsCopy, "proof-count", "encoder:strips-copies-only", where, ifElse(ok2 && stripsCopy, "proofs are stripped from deep copies, enumerated by the same walker", "the encoder strips proofs from "+f3.Args0()+" (deep copy made: "+fmt.Sprint(ok2)+"): the caller's transactions must not lose their proofs"))
@@ -244,7 +244,7 @@ func c18Enumeration(c *Ctx, ge *GuardEngine) {
 		c.Check(okExpand && okSize, "proof-count", "decoder:reads-multiproofSize", where, ifElse(okExpand && okSize, "exactly multiproofSize(txns) hashes are read into the buffer handed to expandMultiproof(txns, …)", "the buffer handed to expandMultiproof is not make([]Hash256, multiproofSize(*txns)) over the decoded transactions"))
 		// bail out before expanding when an index was rejected
 		gs := ge.AllGuards(fn, nil, 0, map[*ssa.Function]bool{})
-		r := req("decoder:leaf-index-bound", dec, "…LeafIndex", opGE, "call (*types.Decoder).ReadUint64({types.Decoder})", "a leaf index at or beyond the transmitted leaf count is rejected before proofs are sized", "…")
+		r := req("decoder:leaf-index-bound", dec, "…LeafIndex", opGE, "call (types.Decoder).ReadUint64({types.Decoder})", "a leaf index at or beyond the transmitted leaf count is rejected before proofs are sized", "…")
 		r.Weak = true
 		ge.CheckReq(c, "proof-count", r, gs)
 	} else {
@@ -361,7 +361,7 @@ func c18Commitment(c *Ctx, ge *GuardEngine) {
 		cs, fn := directCalls(ge, entry)
 		var out []string
 		for _, cf := range cs {
-			if cf.Callee != nil && FuncName(cf.Callee) == "(*blake2b.Accumulator).AddLeaf" && len(cf.Args) == 2 {
+			if cf.Callee != nil && FuncName(cf.Callee) == "(blake2b.Accumulator).AddLeaf" && len(cf.Args) == 2 {
 				out = append(out, cf.Args[1])
 			}
 		}
@@ -377,7 +377,7 @@ func c18Commitment(c *Ctx, ge *GuardEngine) {
 	wantO := []string{pat("call (consensus.State).MerkleLeafHash({consensus.State}, {gateway.V2BlockOutline}.MinerAddress)…"), pat("{gateway.V2BlockOutline}.Transactions[*].Hash…")}
 	okO := len(o) == 2 && mustRe(wantO[0]).MatchString(o[0]) && mustRe(wantO[1]).MatchString(o[1])
 	c.Check(okO, "commitment", "outline-shape", c.P.Pos(ofn.Pos()), ifElse(okO, "state leaf of the miner address first, then each Transactions[i].Hash in order", "outline commitment adds "+joinShort(o)+"; expected the state leaf for MinerAddress followed by every transaction hash in order"))
-	wantS := []string{pat("call (consensus.State).MerkleLeafHash({consensus.State}, {types.Address})…"), pat("call (*types.Transaction).MerkleLeafHash({[]types.Transaction}[*])…"), pat("call (*types.V2Transaction).MerkleLeafHash({[]types.V2Transaction}[*])…")}
+	wantS := []string{pat("call (consensus.State).MerkleLeafHash({consensus.State}, {types.Address})…"), pat("call (types.Transaction).MerkleLeafHash({[]types.Transaction}[*])…"), pat("call (types.V2Transaction).MerkleLeafHash({[]types.V2Transaction}[*])…")}
 	okS := len(s) == 3
 	for i := 0; okS && i < 3; i++ {
 		okS = mustRe(wantS[i]).MatchString(s[i])
